@@ -247,6 +247,22 @@ def generate():
           "pub struct XPeerEntry {\n    pub node_id: Option<u8>,\n}\n#[allow(unused_mut)]\n"
           "pub fn x_peer_entry_flags(p: &XPeerEntry, mut addr_ipv4: SmallVec<[u8; 16]>, mut addr_ipv6: SmallVec<[u8; 16]>) -> (u8, usize, usize) {\n"
           + sl + "\n    (flags, addr_ipv4.len(), addr_ipv6.len())\n}\n")
+    # ... and the same statements of NodeInfo::encode_addrs_part (the node's own address list)
+    fn_txt = extract_item(msgs, r"^    fn encode_addrs_part<W: Write>\(&self, mut out: W\)")
+    sl = None
+    if fn_txt:
+        loop = extract_item(fn_txt, r"for a in &self\.addrs \{")
+        endpos = fn_txt.find("out.write_u8(flags)")
+        if loop and endpos > 0:
+            startpos = fn_txt.index(loop) + len(loop)
+            if startpos < endpos:
+                sl = fn_txt[startpos:endpos]
+    sl = need(sl, "limit-and-flags slice in NodeInfo::encode_addrs_part", "let flags = 0u8;")
+    for v in ("addr_ipv4", "addr_ipv6", "flags"):
+        if not re.search(r"\b%s\b" % v, sl):
+            problems.append("limit-and-flags slice of encode_addrs_part no longer mentions `%s`" % v)
+    xm += ("#[allow(unused_mut)]\npub fn x_own_addrs_flags(mut addr_ipv4: SmallVec<[u8; 16]>, mut addr_ipv6: SmallVec<[u8; 16]>) -> (u8, usize, usize) {\n"
+           + sl + "\n    (flags, addr_ipv4.len(), addr_ipv6.len())\n}\n")
     write_if_changed(os.path.join(K.GEN, "extracted_messages.rs"), xm)
     # 3. playback dispatch
     hs = all_harnesses()
